@@ -696,6 +696,11 @@ def eval_frame(ctx, c, outs):
     label_route = route in ('loc2', 'loc_r', 'getitem', 'sloc')
     # equivalent label forms are only exact when the mapping position->label is what we feed
     prk, pck = gen.key_to_py(rk), gen.key_to_py(ck)
+    if (c['spec']['rows'] + len(c['spec']['cols'])) % 3 == 0:
+        # a Boolean row mask given as a plain list is a mask too (one True selects one row, not a column); a Boolean LIST as
+        # column key is read as positions by the block manager and as a mask by the index, and is refused (never data)
+        prk = prk.tolist() if isinstance(prk, np.ndarray) and prk.dtype == bool else prk
+        ctx.count('row_mask_keys_as_lists')
     use_rk, use_ck = prk, pck
     if label_route:
         lrk, ok1 = label_key(rk, rlabels, 'r')
